@@ -22,7 +22,7 @@ pub fn def() -> PropDef {
     PropDef {
         info: PropInfo {
             id: "C20",
-            rule: "corpus lines generated from the strategies of the other checks: A = assembly texts (C13 programs and C14 token soup), V = near-valid byte strings (C06), D = well-formed instruction streams (C15), X = structured programs + inputs (C01/C03, helper-free), dense straight-line programs, and call-graph / helper-call programs (C07/C08) with registered helpers and a stack-usage calculator on each of the four VM kinds, and helper-call programs for which the no_std build's caller-supplied JIT memory is placed near the helper and on either side of the +-2^31 distances from it; the JIT only on runs the reference model classifies as defined, terminating and in bounds. Each line is evaluated in two builds of the crate: the default one (in this process, executions fork-isolated) and the no_std one (binary harness-nostd, JIT running from caller-supplied mmap'ed executable memory). Oracle: the two transcripts are equal line by line - assembler Ok(bytes)/Err (messages are documented to differ, only the kind is compared), verifier Ok/Err, disassembler entries field by field, interpreter Ok(value)+packet bytes / Err, JIT Ok(value)+packet bytes / compile error. Non-trivial = line whose default-build result is Ok with at least 2 instructions, or Err; distinct by hash of the line.",
+            rule: "corpus lines generated from the strategies of the other checks: A = assembly texts (C13 programs and C14 token soup), V = near-valid byte strings (C06), D = well-formed instruction streams (C15) and the near-valid byte strings of C06 cut to whole slots (a panic is an answer like any other), X = structured programs + inputs (C01/C03, helper-free), dense straight-line programs, and call-graph / helper-call programs (C07/C08) with registered helpers and a stack-usage calculator on each of the four VM kinds, and helper-call programs for which the no_std build's caller-supplied JIT memory is placed near the helper and on either side of the +-2^31 distances from it; the JIT only on runs the reference model classifies as defined, terminating and in bounds. Each line is evaluated in two builds of the crate: the default one (in this process, executions fork-isolated) and the no_std one (binary harness-nostd, JIT running from caller-supplied mmap'ed executable memory). Oracle: the two transcripts are equal line by line - assembler Ok(bytes)/Err (messages are documented to differ, only the kind is compared), verifier Ok/Err, disassembler entries field by field, interpreter Ok(value)+packet bytes / Err, JIT Ok(value)+packet bytes / compile error. Non-trivial = line whose default-build result is Ok with at least 2 instructions, or Err; distinct by hash of the line.",
             assumptions: &["the no_std build is linked into an ordinary std binary (only the crate's own feature set differs)", "Cranelift and the std-only helpers do not exist in the no_std build and are outside this property"],
         },
         run,
@@ -245,6 +245,17 @@ fn run(ctx: &Ctx) {
     for _ in 0..ctx.share(8_000 * scale) {
         let (s, canon) = sample(&st, &mut tr);
         lines.push(format!("D {}", isa::hex(&super::c15::lower(&s, canon))));
+    }
+    // D on the near-valid byte strings of C06 as well: unsupported opcodes and broken wide loads
+    // included - whatever the default build answers (entries, or a panic), the other must too
+    for _ in 0..ctx.share(4_000 * scale) {
+        let mut b = soup::lower(&sample(&sp, &mut tr));
+        b.truncate(b.len() / 8 * 8);
+        if b.is_empty() {
+            continue;
+        }
+        ctx.stats().class("D:near-valid-byte-string");
+        lines.push(format!("D {}", isa::hex(&b)));
     }
     // X: programs + inputs
     let pg = gen::program(true, false);
